@@ -579,12 +579,20 @@ fn execute_write_count(db: &core::Db, cypher: &str, params: &Params) -> ApiResul
         ));
     }
     let prepared = prepare(cypher).map_err(|e| ApiError::from_query_message(&e.to_string()))?;
+    #[cfg(nervusdb_verif)]
+    core::verif::point("capi.write.begin");
     let snapshot = db.snapshot();
+    #[cfg(nervusdb_verif)]
+    core::verif::point("capi.write.snapshot");
     let mut txn = db.begin_write();
+    #[cfg(nervusdb_verif)]
+    core::verif::point("capi.write.locked");
     let (_rows, write_count) = prepared
         .execute_mixed(&snapshot, &mut txn, params)
         .map_err(|e| ApiError::from_query_message(&e.to_string()))?;
     txn.commit().map_err(ApiError::from_core)?;
+    #[cfg(nervusdb_verif)]
+    core::verif::point("capi.write.done");
     Ok(write_count)
 }
 
